@@ -5,20 +5,20 @@ CONSTANTS
   NS = 1
   NP = 0
   NW = 1
-  FIN = FALSE
+  FIN = TRUE
   WEAK = TRUE
   DBG = TRUE
   MAXRC = 100
   MaxRoots = 2
   MaxWRoots = 2
-  MaxOps = 6
+  MaxOps = 7
   MaxFaults = 1
-  MaxTraceK = 2
+  MaxTraceK = 1
   BUG_STALE_TC = FALSE
   BUG_NESTED_FLAGS = FALSE
-  OPS = {"clone", "collect", "downgrade", "drop", "dropw", "new", "set", "setw", "unwrap", "upgrade", "upgradef"}
+  OPS = {"clone", "collect", "drop", "dropw", "new", "newcyc", "put", "unwrap", "upgrade", "upgradef"}
   AUTOF = TRUE
-  AUTO0 = FALSE
+  AUTO0 = TRUE
   SZ = 152
 INVARIANT NoViolation
 INVARIANT StructInv
